@@ -88,14 +88,21 @@ let handle (i : string list) (o : string list) =
            m_etag = opt bytes_of_hex etag; m_cache = cc }
        | _ -> failwith "meta fields") in
     let wmeta : (string * string, ometa) Hashtbl.t = Hashtbl.create 8 in
+    (* fdtmut=clmd5: the content the FDT describes (Content-Length, Content-MD5) when the payload the
+       packets carry inflates to something else: the sender's object as far as C03 is concerned *)
+    let claimed : (n, n list) Hashtbl.t = Hashtbl.create 2 in
     List.iter (fun tok -> match split_tilde tok with
         | ["F"; xml; inst] -> Hashtbl.replace ftbl xml inst
         | ["F"; xml; inst; id; npk] -> Hashtbl.replace ftbl xml inst; finsts := (id, inst, int_of_string ("0x" ^ npk)) :: !finsts
         | ["G"; toi; ce; transfer; content] -> Hashtbl.replace gtbl (n_of_hex toi) (cenc_of ce, bytes_of_hex transfer, bytes_of_hex content)
         | "A" :: toi :: tc :: fields -> Hashtbl.replace atbl (n_of_hex toi) (int_of_string tc, parse_meta fields)
         | ["R"; idx; tlen] -> refused := (int_of_string idx, n_of_hex tlen) :: !refused
+        | ["C"; toi; ct] -> Hashtbl.replace claimed (n_of_hex toi) (bytes_of_hex ct)
         | _ -> ()) o;
-    let abstain = ref (altered && get "cenc" "null" <> "null") in
+    (* altered bytes under a content encoding, or an FDT describing a prefix of what the packets inflate to
+       (clmd5): what the writer sees depends on the chunks the real inflater hands out, which the inflate
+       oracle does not know - the model's calls are not compared, the predicates are still judged *)
+    let abstain = ref ((altered || get "fdtmut" "-" = "clmd5") && get "cenc" "null" <> "null") in
     let parse_fdt (xml : n list) : fdtinst option =
       let key = (if xml = [] then "-" else String.concat "" (List.map (fun b -> Printf.sprintf "%02x" (int_of_n b)) xml)) in
       match Hashtbl.find_opt ftbl key with
@@ -197,7 +204,7 @@ let handle (i : string list) (o : string list) =
       !r in
     Array.iteri (fun tok_i tok ->
       match split_tilde tok with
-      | "F" :: _ | "G" :: _ | "A" :: _ | "R" :: _ -> ()
+      | "F" :: _ | "G" :: _ | "A" :: _ | "R" :: _ | "C" :: _ -> ()
       | "c" :: "M" :: toi :: n :: fields -> Hashtbl.replace wmeta (toi, n) (parse_meta fields)
       | ["c"; "B"; toi; ans] -> impl_builder := (toi, ans) :: !impl_builder
       | ["c"; "O"; toi; n; ok] -> add_call (toi, n) (CallOpen (ok = "1"))
@@ -212,7 +219,8 @@ let handle (i : string list) (o : string list) =
           let cache = (try int_of_string (get "cache" "10485760") with _ -> 10485760) in
           (* flood scenario: `arg` more FDT instance ids, each of which may cache up to the FDT object's own
              fixed limit of 1 MiB in datagrams of 60 kB, until the time-out has elapsed and cleanup ran *)
-          let flood = (channel = "fdtflood") in
+          (* fdthalf: `arg` more FDT instance ids that stay unfinished, each bounded like any FDT object *)
+          let flood = (channel = "fdtflood" || channel = "fdthalf") in
           let nflood = (if flood then (try int_of_string (List.nth xsec 3) with _ -> 0) else 0) in
           let cache = if flood then max cache 1048576 else cache in
           let maxpk = if flood then 60200 else max e_i fdte + 128 in
@@ -331,7 +339,8 @@ let handle (i : string list) (o : string list) =
       incr nwriters;
       let cs = List.rev (Hashtbl.find impl_calls (toi, n)) in
       let g = Hashtbl.find_opt gtbl (n_of_hex toi) in
-      let content = (match g with Some (_, _, ct) when not altered && get "fdtmut" "-" <> "notl" -> Some ct | _ -> None) in
+      let clmd5 = (get "fdtmut" "-" = "clmd5") in
+      let content = (match g with Some (_, _, ct) when not altered && not clmd5 && get "fdtmut" "-" <> "notl" -> Some ct | _ -> None) in
       if prop = "c09" then begin
         if not (p_C09_writer content !dropped cs) then pfail := Some (Printf.sprintf "P_C09_writer:%s.%s" toi n)
       end else if prop = "c03" then begin
@@ -343,7 +352,8 @@ let handle (i : string list) (o : string list) =
           let md5_announced = (try List.nth (List.nth osecs idx) 4 = "1" with _ -> false) in
           (* an FDT instance rewritten in transit (fdtmut=notl: Transfer-Length stripped) is not one the
              sender emitted: outside C03's quantifier unless the MD5 guards the object (untrusted FDTs are C04's) *)
-          let guarded = ((not altered) && get "fdtmut" "-" <> "notl") || (md5_announced && get "md5" "1" = "1") in
+          let guarded = ((not altered) && not clmd5 && get "fdtmut" "-" <> "notl") || (md5_announced && get "md5" "1" = "1") in
+          let ct = (match Hashtbl.find_opt claimed (n_of_hex toi) with Some c -> c | None -> ct) in
           if not (p_C03_writer ct guarded cs) then pfail := Some (Printf.sprintf "P_C03_writer:%s.%s" toi n)
         | None -> ()
       end) keys;
@@ -369,6 +379,8 @@ let handle (i : string list) (o : string list) =
                        c_parity = n_of_int (int_of_string (get "par" "0")); c_window = O; c_closable = false;
                        c_tlen = tl; c_debug = true } in
           let accepts = filedesc_accepts cfgm in
+          if not (p_C01_refused_above_maximum fec cfgm.c_e cfgm.c_b tl (not was_refused)) && !pfail = None then
+            pfail := Some (Printf.sprintf "P_C01_refused_above_maximum:object%d:tlen=%d" idx (int_of_n tl));
           if accepts = was_refused && !diff = None then
             diff := Some (Printf.sprintf "object%d:add_object:model-%s" idx (if accepts then "accepts" else "refuses"))) osecs
     end;
